@@ -17,6 +17,7 @@ Support for working with ZConfig data without a schema.
 """
 __docformat__ = "reStructuredText"
 
+import ZConfig
 import ZConfig.cfgparser
 
 
@@ -107,6 +108,11 @@ class Context:
         pass
 
     def importSchemaComponent(self, pkgname):
+        if not pkgname:
+            # e.g. "%import $(VAR)" with VAR set to the empty string; it
+            # could not be written back by Section.__str__
+            raise ZConfig.ConfigurationError(
+                "illegal schema component name: " + repr(pkgname))
         if pkgname not in self.top.imports:
             self.top.imports += (pkgname, )
 
